@@ -34,6 +34,7 @@ PREDICATES = {
     "cyclic_with_starts_or_ends": lambda case, out: bool(_fact(out, "cyclic")) and bool(_fact(out, "has_starts_ends")),
     "error_scaling_present": lambda case, out: bool(_fact(out, "has_scaling")),
     "float_multiplicity_exceeds_data": lambda case, out: _fact(out, "wt") == "float" and bool(_fact(out, "mult_exceeds_data")),
+    "product_bits_cap_explains": lambda case, out: bool(_fact(out, "design_cap_explains")),
     "repetition_cap_explains_gap": lambda case, out: _fact(out, "cap_explains_gap") in (True, "undecided"),
     "float_needs_multiplicity_above_cap": lambda case, out: _fact(out, "wt") == "float" and bool(_fact(out, "ref_multiplicity_exceeds_cap")),
     "number_exceeds_total": lambda case, out: bool(_fact(out, "number_exceeds_total")),
